@@ -40,12 +40,28 @@ def _worker(args):
         else:
             r = framework.run_obligation(o, timeout_ms=timeout_ms, second=second)
         rep = None
+        if getattr(o, "runner", None) is not None:
+            return r.to_json()
         if r.status == "refuted" and r.witness is not None:
             try:
                 rep = framework.replay(o, r.witness)
             except Exception as e:
                 rep = {"outcome": "replay-crashed", "failed": [], "observed": repr(e)}
             r.replay = rep
+        if r.status == "refuted" and not (r.replay and r.replay.get("failed")) and not getattr(o, "no_unroll", False):
+            w = None
+            try:
+                w = framework.enumerate_witness(o, r.decls, seed=int(os.environ.get("VERIF_SEED", "0")))
+            except Exception as e:
+                r.note += " enumerate_witness crashed: %r;" % (e,)
+            if w is not None:
+                r.witness, r.replay = w[0], w[1]
+                r.note += " failing input found by concrete search over small grids (%d tried)" % w[2]
+            else:
+                w = framework.find_witness(o, timeout_ms=timeout_ms)
+                if w is not None:
+                    r.witness, r.replay = w
+                    r.note += " witness found with concrete array extents (sums written out)"
         return r.to_json()
     except Exception:
         import traceback
@@ -86,6 +102,7 @@ def main(argv=None):
     ap.add_argument("--list", action="store_true")
     ap.add_argument("--write-expected", action="store_true")
     ap.add_argument("--verbose", "-v", action="store_true")
+    ap.add_argument("--no-evidence", action="store_true", help="do not write evidence/ and replays/ (mutant self-test)")
     a = ap.parse_args(argv)
 
     t0 = time.time()
@@ -122,8 +139,8 @@ def main(argv=None):
     results = []
     if a.jobs > 1 and len(jobs) > 1:
         ctx = multiprocessing.get_context("fork")
-        with ctx.Pool(min(a.jobs, len(jobs))) as pool:
-            for r in pool.imap_unordered(_worker, jobs):
+        with ctx.Pool(min(a.jobs, len(jobs)), maxtasksperchild=1) as pool:
+            for r in pool.imap_unordered(_worker, jobs, chunksize=1):
                 results.append(r)
                 if a.verbose:
                     print("  %-11s %s (%d paths, %.2fs)" % (r["status"], r["name"], r["paths"], r["seconds"]))
@@ -142,7 +159,8 @@ def main(argv=None):
         exp["repo_head"] = head
         json.dump(exp, open(os.path.join(VERIF_DIR, "contracts", "EXPECTED.json"), "w"), indent=1, sort_keys=True)
 
-    return evidence.report(a.prop, a.tier, seed, results, framework.REGISTRY, load_known(), load_expected(), head, dirty, time.time() - t0)
+    return evidence.report(a.prop, a.tier, seed, results, framework.REGISTRY, load_known(), load_expected(), head, dirty, time.time() - t0,
+                           write=not a.no_evidence)
 
 
 def do_replay(path):
@@ -152,6 +170,10 @@ def do_replay(path):
     if o is None:
         print("unknown obligation %s" % d["obligation"])
         return 3
+    if getattr(o, "runner", None) is not None:
+        r = o.runner(o)
+        print("obligation: %s -> %s %s" % (o.name, r.status, r.note))
+        return 1 if r.status == "refuted" else 0
     if d.get("witness") is None:
         print("replay file carries no concrete input (no-failing-input-found); solver output:\n%s" % d.get("solver_output", ""))
         return 1
